@@ -834,6 +834,6 @@ package mail
 
 // C03 (continued): between DATA and end-of-data the writer is written to by Msg.WriteTo and by nothing else
 //@ ghost field afterrender int
-//@ at mail.Client.sendSingleMsg mail.Msg.WriteTo#1 before assert[C03:nothing-before-the-message] as(writer, "*smtp.dataCloser").dwrites == 0
-//@ at mail.Client.sendSingleMsg mail.Msg.WriteTo#1 after ghost[C03:g] world.afterrender = as(writer, "*smtp.dataCloser").dwrites
-//@ at mail.Client.sendSingleMsg io.Closer.Close#1 before assert[C03:nothing-after-the-message] as(writer, "*smtp.dataCloser").dwrites == world.afterrender
+//@ at mail.Client.sendSingleMsg mail.Msg.WriteTo#1 before assert[C03:nothing-before-the-message] writer.sinkacc == 0
+//@ at mail.Client.sendSingleMsg mail.Msg.WriteTo#1 after ghost[C03:g] world.afterrender = writer.sinkacc
+//@ at mail.Client.sendSingleMsg io.Closer.Close#1 before assert[C03:nothing-after-the-message] writer.sinkacc == world.afterrender
